@@ -33,6 +33,16 @@ macro_rules! harnesses {
 }
 
 harnesses! {
+    #[kani::unwind(48)] c10_fmt_len0 => |s| c10::format_tables(s, 0);
+    #[kani::unwind(48)] c10_fmt_len1 => |s| c10::format_tables(s, 1);
+    #[kani::unwind(48)] c10_fmt_len2 => |s| c10::format_tables(s, 2);
+    #[kani::unwind(48)] c10_fmt_len3 => |s| c10::format_tables(s, 3);
+    #[kani::unwind(48)] c10_fmt_len4 => |s| c10::format_tables(s, 4);
+    #[kani::unwind(48)] c10_fmt_len5 => |s| c10::format_tables(s, 5);
+    #[kani::unwind(48)] c10_fmt_len6 => |s| c10::format_tables(s, 6);
+    #[kani::unwind(48)] c10_fmt_len7 => |s| c10::format_tables(s, 7);
+    #[kani::unwind(48)] c10_fmt_len8 => |s| c10::format_tables(s, 8);
+    #[kani::unwind(48)] c10_fmt_len9 => |s| c10::format_tables(s, 9);
     #[kani::unwind(24)] c05_sv_empty => |s| c05::validator(s, &[]);
     #[kani::unwind(24)] c05_sv_1 => |s| c05::validator(s, &[1]);
     #[kani::unwind(24)] c05_sv_2 => |s| c05::validator(s, &[2]);
